@@ -261,6 +261,59 @@ func (g *opGen) spec() kaiv1.ConfigSpec {
 // disabling it starts a wall-clock dependent graceful deprecation, which is history dependent by design.
 func (g *opGen) mutateSpec(a kaiv1.ConfigSpec) (kaiv1.ConfigSpec, []string) {
 	b := *a.DeepCopy()
+	if g.r.p(0.45) {
+		// a change that only removes things: exactly one operand is switched off, everything else stays as it is
+		off := func(name string, svc **kaicommon.Service) func() bool {
+			return func() bool {
+				if *svc == nil {
+					*svc = &kaicommon.Service{}
+				}
+				if (*svc).Enabled != nil && !*(*svc).Enabled {
+					return false
+				}
+				(*svc).Enabled = ptr.To(false)
+				return true
+			}
+		}
+		var cands []struct {
+			name string
+			f    func() bool
+		}
+		add := func(name string, f func() bool) {
+			cands = append(cands, struct {
+				name string
+				f    func() bool
+			}{name, f})
+		}
+		if b.Binder != nil {
+			// (the binder operand rewrites a ServiceAccount on every pass, which gives every other Deploy an update
+			// to do; switching the binder itself off is the change where nothing but deletions are left)
+			for i := 0; i < 4; i++ {
+				add("binder-off", off("binder", &b.Binder.Service))
+			}
+		}
+		if b.Admission != nil {
+			add("admission-off", off("admission", &b.Admission.Service))
+		}
+		if b.PodGrouper != nil {
+			add("podGrouper-off", off("podGrouper", &b.PodGrouper.Service))
+		}
+		if b.QueueController != nil {
+			add("queueController-off", off("queueController", &b.QueueController.Service))
+		}
+		if b.PodGroupController != nil {
+			add("podGroupController-off", off("podGroupController", &b.PodGroupController.Service))
+		}
+		if b.NodeScaleAdjuster != nil {
+			add("nodeScaleAdjuster-off", off("nodeScaleAdjuster", &b.NodeScaleAdjuster.Service))
+		}
+		if len(cands) > 0 {
+			c := cands[g.r.IntN(len(cands))]
+			if c.f() {
+				return b, []string{c.name}
+			}
+		}
+	}
 	n := g.spec()
 	var what []string
 	take := func(name string, f func()) {
